@@ -59,6 +59,12 @@ CLAIMED = {
   text="The oracle is the library's own from-scratch constructor, so no reference model is trusted for oracle 1: every exported field of the long-lived context (three shufflings with committees, proposers, effective balances, total stake and its square root, both sync committees) and the pubkey-cache lookups for every index and registered key must equal a freshly built context after every single slot and block of chains of ~6-14 epochs; from drawn reload points a second instance continues from the serialized state with a fresh context and must give identical verdicts and roots for all remaining blocks; siblings created with CopyState+Clone are advanced differently and must not disturb each other, including siblings that add different validators at the same index through the shared pubkey cache, and a sibling that replays the same deposits later. Chains are sampled.",
   note="Steps on which the library already diverges from the reference (C01/C02's subject) end the case without a verdict; blocks are built by refspec (trusted as generator, not as oracle, here). States with an empty active set are excluded (known finding F-C02-05).",
   ref="§3 C08"),
+ "C14": dict(
+  technique="property-based testing (rapid) of fork lookups against from-spec compute_fork_version/compute_fork_digest/compute_domain over generated fork schedules, envelope round-trip and signature differential with real BLS signatures, chains stepped across every boundary, plus complete enumeration of the built-in constants against a pinned table",
+  level="exploration",
+  text="Fork schedules are sampled (epochs 0, equal, adjacent, far apart, never activated for altair..fulu; SLOTS_PER_EPOCH in {1,4,8,32}; random versions and genesis validators roots) and queried on both sides of every boundary: Spec.ForkVersion, ForkDecoder.ForkDigest, BlockAllocator, block->Envelope->block identity, VerifySignature must accept the slot's version and refuse each of the six others and another proposer index. Chains are advanced slot by slot across all four upgrades and the state's type and fork record must name the slot's fork. The finite sub-space of built-in constants (mainnet, minimal, spec-level: ~300 values) is enumerated completely against the pinned v1.5.0-beta.2 table. Found and repaired Spec.ForkVersion being shifted by one fork from Capella on.",
+  note="Trusted: the pinned constants table (reviewed in the design round; a constant wrong today and misremembered identically is not detected), refspec/refssz, the BLS library. BlockAllocator judged up to electra (no fulu block type exists). Block values use MAX_VALIDATORS_PER_COMMITTEE=17 to stay clear of the ztyp full-bitlist decoding issue (C04's subject).",
+  ref="§3 C14"),
 }
 PENDING_REASON = "check not built yet in this session (designed in DESIGN.md §3; will be claimed when its machinery is committed)"
 
